@@ -175,6 +175,7 @@ def run(ctx):
             py = impl_eval(("div", ("c", P.num_tuple(a)), ("c", P.num_tuple(z))), {})
             if not (py[0] == "OK" and isinstance(py[1], float) and py[1] != py[1]):
                 res.failures.append(dict(**{"class": "division-by-zero"}, input=dict(tree=f"{a} / {z}"), detail=repr(py)))
+    abs_oracle(res, rnd, ctx.n(300, 6000))
     # ... also when the zero is the VALUE of an expression, whatever number type carries it (seed C05-D: a numpy zero coming out of
     # np.power slipped past a ZeroDivisionError handler and gave inf): denominators that are exactly zero and exactly representable
     X, Y = P.V("x"), P.V("y")
@@ -197,6 +198,55 @@ def run(ctx):
                 if not (py[0] == "OK" and isinstance(py[1], float) and py[1] != py[1]):
                     res.failures.append(dict(**{"class": "division-by-zero"}, input=dict(tree=P.sx_text(t), env={chr(k): repr(v) for k, v in e2.items()}),
                                              detail=f"the denominator {P.sx_text(z)} is exactly zero; evaluated to {py!r} instead of nan"))
+
+
+def build_abs(t):
+    """like P.build, plus ('abs', t): AbsExpression (a public expression class; `abs` is not a registered function name of the parser,
+    so such trees come from the constructors only and are outside the Coq models - the oracle below is what covers them)"""
+    from mathy_core import expressions as E
+    if t[0] == "abs":
+        return E.AbsExpression(build_abs(t[1]))
+    if t[0] in ("c", "v"):
+        return P.build(t)
+    C = P.classes()
+    return C[t[0]](*[build_abs(a) for a in t[1:]])
+
+
+def ref_abs(t, env):
+    if t[0] == "abs":
+        return abs(ref_abs(t[1], env))
+    if t[0] == "c":
+        return t[1][1] if t[1][0] == "i" else F(t[1][1])
+    if t[0] == "v":
+        return env[t[1]]
+    if t[0] == "neg":
+        return -ref_abs(t[1], env)
+    a, b = ref_abs(t[1], env), ref_abs(t[2], env)
+    return a + b if t[0] == "add" else a - b if t[0] == "sub" else a * b if t[0] == "mul" else a ** b
+
+
+def abs_oracle(res, rnd, n):
+    """absolute values of ints of any magnitude stay exact Python-int arithmetic (an np.int64 leaking out of abs wraps in the next operation)"""
+    X, Y = P.V("x"), P.V("y")
+    shapes = [("abs", X), ("mul", ("abs", X), ("abs", Y)), ("add", ("abs", X), Y), ("pow", ("abs", X), P.C(2)), ("abs", ("sub", X, Y)),
+              ("abs", ("mul", X, Y)), ("neg", ("abs", ("neg", X))), ("mul", ("abs", X), P.C(2 ** 40)), ("sub", ("abs", X), ("abs", Y)), ("abs", ("abs", X))]
+    vals = [0, 1, -1, 5, -7, 2 ** 31, -2 ** 31, 2 ** 40, -2 ** 40, 2 ** 62, -2 ** 63, 2 ** 63, -2 ** 63 - 1, 2 ** 64 + 1, -10 ** 30, 10 ** 40]
+    for _ in range(n):
+        t = rnd.choice(shapes)
+        env = {ord("x"): rnd.choice(vals), ord("y"): rnd.choice(vals)}
+        res.evaluations += 1
+        try:
+            v = build_abs(t).evaluate({chr(k): x for k, x in env.items()})
+            py = ("OK", v)
+        except Exception as e:
+            py = ("EXC", type(e).__name__)
+        ref = ref_abs(t, env)
+        inp = dict(tree=P.sx_text(t), env={chr(k): repr(x) for k, x in env.items()})
+        if py[0] != "OK":
+            res.failures.append(dict(**{"class": "defined-raises"}, input=inp, detail=f"raises {py[1]} although the exact value is {ref}"))
+        elif isinstance(py[1], float) or int(py[1]) != ref:
+            res.failures.append(dict(**{"class": "int-inexact"}, input=inp, detail=f"integer expression with abs evaluated to {py[1]!r} ({type(py[1]).__name__}), exact value {ref}"))
+        res.nontrivial.add(("abs", P.sx_text(t), tuple(sorted(env.items()))))
 
 
 def replay(payload):
